@@ -25,7 +25,7 @@ RULE = (
 ASSUMPTIONS = [
     "int-valued, total programs: equal stdout and exception class is behavioural equality",
 ]
-BUDGET = {"quick": (7200, 240), "thorough": (160000, 2700)}
+BUDGET = {"quick": (30000, 240), "thorough": (300000, 2700)}
 
 USES = ["read", "write", "aug", "expr", "read_twice", "write_expr", "tuple_write", "del_like_noop"]
 
@@ -43,6 +43,10 @@ def cases(draw):
         "planted": [[draw(st.sampled_from(["lib", "use", "use2"])), draw(st.sampled_from(["3", "k", "(k + 1)"])), draw(st.sampled_from(["4", "k"]))] for _ in range(draw(st.integers(1, 3)))],
         "body_has_local": draw(st.booleans()),
         "query": draw(st.sampled_from(["def", "use"])),
+        # layout of the client modules' end: a field write as the very last line, without a final newline
+        "tail": draw(st.sampled_from(["newline", "newline", "no_newline", "write_no_newline", "aug_write_no_newline"])),
+        # MethodObject on a function nested in a method, with class members following that method
+        "nested_target": draw(st.booleans()),
     }
 
 
@@ -103,7 +107,22 @@ def render(case):
         xx, yy = x.replace("k", kname), y.replace("k", kname)
         expr = case["body"].replace("a", "§").replace("b", yy).replace("§", xx)
         texts[mod] += "print(%s)\nprint(%scompute(%s, %s))\n" % (expr, p, xx, yy)
+    if case.get("nested_target"):
+        files["lib.py"] += (
+            "class Basket:\n    def weight(self, a, b):\n        def calc(a, b):\n            return %s\n        return calc(a, b)\n"
+            "    def describe(self):\n        return 7\nprint(Basket().weight(2, 3), Basket().describe())\n" % case["body"]
+        )
     files["lib.py"] += texts["lib"]
+    tail = case.get("tail", "newline")
+    for mod in ("use", "use2"):
+        if tail != "newline" and texts[mod].count("\n") > 1:
+            last_o = [ln.split(" = ")[0] for ln in texts[mod].split("\n") if ln.startswith("o") and " = " in ln and "(" in ln and "." not in ln.split(" = ")[0]]
+            if tail == "no_newline" or not last_o:
+                texts[mod] = texts[mod].rstrip("\n")
+            elif tail == "write_no_newline":
+                texts[mod] += "%s.val = 5" % last_o[-1]
+            else:
+                texts[mod] += "%s.val += 4" % last_o[-1]
     files["use.py"] = texts["use"]
     files["use2.py"] = texts["use2"]
     files["main.py"] = "import lib\nimport use\nimport use2\n"
@@ -198,6 +217,8 @@ def evaluate(case, env):
                 changes = IntroduceFactory(project, res, off).get_changes("create", global_factory=(r == "factory_global"))
             elif r == "method_object":
                 off = lib.index("def compute") + 4
+                if case.get("nested_target"):
+                    off = lib.index("def calc") + 4
                 changes = MethodObject(project, res, off).get_changes("_Compute")
             elif r == "local_to_field":
                 off = lib.index("tmp")
